@@ -729,7 +729,7 @@ def run(ctx):
 _ORD_CODE = {"Less": 255, "Equal": 0, "Greater": 1}
 
 
-def order_value(t, leaf):
+def order_value(t, leaf, facts=None):
     """Value of a term built from order comparisons under a concrete assignment of its leaves, or None when it depends
     on anything else.  `leaf(term)` gives the value of a leaf (an int, or a tuple for an Option: () is None, (x,) is
     Some(x) — Python orders tuples the way Rust orders Options) or None for "not a leaf".  Comparisons by operator, by
@@ -744,16 +744,16 @@ def order_value(t, leaf):
     if k == "const" and isinstance(t[1], (bool, int)):
         return int(t[1])
     if k == "mvar":
-        return order_value(t[3], leaf)
+        return order_value(t[3], leaf, facts)
     if k == "cast":
-        return order_value(t[1], leaf)
+        return order_value(t[1], leaf, facts)
     if k == "un" and t[1] == "Not":
-        x = order_value(t[2], leaf)
+        x = order_value(t[2], leaf, facts)
         return None if not isinstance(x, int) else int(not x)
     cmpf = {"Lt": lambda x, y: x < y, "Le": lambda x, y: x <= y, "Gt": lambda x, y: x > y, "Ge": lambda x, y: x >= y,
             "Eq": lambda x, y: x == y, "Ne": lambda x, y: x != y}
     if k == "bin" and t[1] in cmpf:
-        x, y = order_value(t[2], leaf), order_value(t[3], leaf)
+        x, y = order_value(t[2], leaf, facts), order_value(t[3], leaf, facts)
         if x is None or y is None or type(x) is not type(y):
             return None
         return int(cmpf[t[1]](x, y))
@@ -764,21 +764,33 @@ def order_value(t, leaf):
             if str(t[2]) == "None":
                 return ()
             if str(t[2]) == "Some" and len(t[3]) == 1:
-                x = order_value(t[3][0][1], leaf)
+                x = order_value(t[3][0][1], leaf, facts)
                 return None if x is None else (x,)
         return None
     if k == "discr":
-        x = order_value(t[1], leaf)
+        x = order_value(t[1], leaf, facts)
         if isinstance(x, tuple):
             return len(x)               # None = 0, Some = 1
         return x if isinstance(x, int) else None
     if k == "field" and str(t[2]) == "0" and t[1][0] == "variant" and str(t[1][2]) == "Some":
-        x = order_value(t[1][1], leaf)
+        x = order_value(t[1][1], leaf, facts)
         return x[0] if isinstance(x, tuple) and len(x) == 1 else None
     if k == "call":
         info = t[3] or {}
         name = info.get("name")
-        args = [order_value(a, leaf) for a in t[2]]
+        args = [None if strip_deep(a)[0] == "closure" else order_value(a, leaf, facts) for a in t[2]]
+        clos = [strip_deep(a) for a in t[2] if strip_deep(a)[0] == "closure"]
+        if len(clos) == 1 and args and isinstance(args[0], tuple) and (info.get("krate") in ("core", "std", "alloc") or "option::Option" in (info.get("res") or "")):
+            # std's contract of the Option combinators that take a predicate
+            if name in ("is_some_and", "is_none_or") and len(args) == 2:
+                return int(name == "is_none_or") if not args[0] else closure_value(facts, clos[0], [args[0][0]], leaf)
+            if name == "map_or" and len(args) == 3 and args[1] is not None:
+                return args[1] if not args[0] else closure_value(facts, clos[0], [args[0][0]], leaf)
+            if name == "filter" and len(args) == 2:
+                if not args[0]:
+                    return ()
+                keep = closure_value(facts, clos[0], [args[0][0]], leaf)
+                return None if keep is None else (args[0] if keep else ())
         if any(a is None for a in args):
             return None
         m2 = {"lt": "Lt", "le": "Le", "gt": "Gt", "ge": "Ge", "eq": "Eq", "ne": "Ne"}
@@ -806,15 +818,47 @@ def order_value(t, leaf):
     return None
 
 
+def _const_of(op, env):
+    """Value of an operand that is a literal, or a plain local holding one on the path walked so far."""
+    if "k" in op:
+        v = op["k"].get("v")
+        return int(v) if isinstance(v, (bool, int)) else None
+    pl = op.get("c") or op.get("m")
+    if pl is not None and not pl["p"]:
+        return env.get(pl["l"])
+    return None
+
+
+def _flags_after(stmts, env):
+    """Flags set on a path (`let ok = match … { … => true, … }` … `if ok`, what `matches!` and `&&` leave behind): the
+    constants held by plain locals after the statements, given those held before."""
+    for st in stmts:
+        if st["s"] == "assign" and st["rv"]["r"] in ("ref", "rawptr") and st["rv"]["pl"]["l"] in env:
+            env = dict(env)
+            env.pop(st["rv"]["pl"]["l"], None)      # borrowed: may change behind our back
+        if st["s"] == "assign" and not st["pl"]["p"]:
+            v = _const_of(st["rv"]["op"], env) if st["rv"]["r"] == "use" else None
+            if v is not None or st["pl"]["l"] in env:
+                env = dict(env)
+                env.pop(st["pl"]["l"], None)
+                if v is not None:
+                    env[st["pl"]["l"]] = v
+        elif st["s"] in ("assign", "setdiscr") and st["pl"]["l"] in env:
+            env = dict(env)
+            env.pop(st["pl"]["l"], None)
+    return env
+
+
 def iteration_paths(b, starts, stops, on_stmt=None, max_paths=4000):
     """Acyclic paths of one loop iteration: from the blocks `starts` until a block of `stops` is entered again
     ("again"), the function returns ("return", block) or nothing follows.  -> [(kind, block, conds, notes, blocks)] with
     conds = [(discriminant operand, block, value taken | None, values not taken)] in path order; `on_stmt(bb, si, st,
-    notes)` may record things about the statements / calls passed (si = "term" for the call terminator)."""
+    notes, conds)` may record things about the statements / calls passed (si = "term" for the call terminator).
+    A branch on a flag local whose value the path itself has set is followed along that value only."""
     out = []
-    stack = [(s0, [], [], frozenset()) for s0 in starts]
+    stack = [(s0, [], [], frozenset(), {}) for s0 in starts]
     while stack:
-        bb, conds, notes, seen = stack.pop()
+        bb, conds, notes, seen, env = stack.pop()
         if bb in stops:
             out.append(("again", bb, conds, notes, seen))
             continue
@@ -828,23 +872,84 @@ def iteration_paths(b, starts, stops, on_stmt=None, max_paths=4000):
             notes = list(notes)
             for si, st in enumerate(blk["stmts"]):
                 on_stmt(bb, si, st, notes, conds)
+        env = _flags_after(blk["stmts"], env)
         t = blk["term"]
         k = t["t"]
         if k == "return":
             out.append(("return", bb, conds, notes, seen))
         elif k in ("goto", "drop", "assert"):
-            stack.append((t["target"], conds, notes, seen))
+            stack.append((t["target"], conds, notes, seen, env))
         elif k == "call":
             if on_stmt is not None:
                 on_stmt(bb, "term", t, notes, conds)
+            if t["dest"]["l"] in env:
+                env = dict(env)
+                env.pop(t["dest"]["l"], None)
             if t.get("target") is not None:
-                stack.append((t["target"], conds, notes, seen))
+                stack.append((t["target"], conds, notes, seen, env))
         elif k == "switch":
+            known = _const_of(t["discr"], env)
+            if known is not None:
+                tgt = [tb for v, tb in t["targets"] if v == known]
+                stack.append((tgt[0] if tgt else t["otherwise"], conds, notes, seen, env))
+                continue
             listed = [v for v, _ in t["targets"]]
             for v, tb in t["targets"]:
-                stack.append((tb, conds + [(t["discr"], bb, v, [])], notes, seen))
-            stack.append((t["otherwise"], conds + [(t["discr"], bb, None, listed)], notes, seen))
+                stack.append((tb, conds + [(t["discr"], bb, v, [])], notes, seen, env))
+            stack.append((t["otherwise"], conds + [(t["discr"], bb, None, listed)], notes, seen, env))
     return out
+
+
+def closure_value(facts, ct, args, outer_leaf):
+    """Value of calling the closure term `ct` = ('closure', def, captures) on the values `args`, when its body is a
+    loop-free combination of order comparisons of its parameters and captures (captures are valued in the caller)."""
+    cb = facts.body(ct[1]) if facts is not None else None
+    if cb is None:
+        return None
+    sy = K.sym_of(cb)
+    caps = {}
+    for name, pl in cb.rec.get("upvars", []):
+        for pe in pl.get("p", []):
+            if pe and pe[0] == "f":
+                try:
+                    caps[name] = ct[2][int(pe[1])]
+                except (TypeError, ValueError, IndexError):
+                    pass
+                break
+    params = {cb.local_name(i + 2): a for i, a in enumerate(args) if cb.arg_count >= i + 2 and cb.local_name(i + 2)}
+
+    def leaf(t):
+        if t[0] == "param" and t[1] in params:
+            return params[t[1]]
+        if t[0] == "upvar" and t[1] in caps:
+            return order_value(caps[t[1]], outer_leaf, facts)
+        return None
+
+    def on_stmt(bb, si, st, notes, conds):
+        if si == "term":
+            if st["dest"]["l"] == 0 and not st["dest"]["p"]:
+                notes.append(("ret", sy.call(st, bb)))
+        elif st["s"] == "assign" and st["pl"]["l"] == 0 and not st["pl"]["p"]:
+            notes.append(("ret", sy.rvalue(st["rv"])))
+    got = set()
+    ips = iteration_paths(cb, [0], (), on_stmt)
+    if not ips:
+        return None
+    for kind, end, conds, notes, blocks in ips:
+        feasible = True
+        for d, _, v, nots in conds:
+            val = order_value(sy.operand(d), leaf, facts)
+            if not isinstance(val, int):
+                return None
+            if (v is not None and val != v) or (v is None and val in nots):
+                feasible = False
+                break
+        if feasible:
+            rets = [t for k_, t in notes if k_ == "ret"]
+            if not rets:
+                return None
+            got.add(order_value(rets[-1], leaf, facts))
+    return next(iter(got)) if len(got) == 1 else None
 
 
 def check_provider_set_decoder(ctx, f):
@@ -940,7 +1045,7 @@ def check_provider_set_decoder(ctx, f):
                         term = sym.operand(d)
                         if upd and i >= min(upd) and any(prev_local(x) == P for x in walk(strip_deep(term))):
                             uses_prev_after_update = True
-                        val = order_value(term, leaf)
+                        val = order_value(term, leaf, f)
                         if val is None or not isinstance(val, int):
                             continue                        # a test of something else: may go either way
                         if (v is not None and val != v) or (v is None and val in nots):
